@@ -729,6 +729,9 @@ class Canon(object):
                 return True
             if isinstance(e, ast.Name):
                 return e.id in ok_names
+            if isinstance(e, ast.Attribute) and isinstance(e.value, ast.Name) and e.value.id in ('select', 'signal', 'errno', 're', 'socket', 'termios', 'tty', 'stat') \
+                    and e.value.id not in stores and e.attr.isupper():
+                return True          # select.POLLIN, errno.EINTR, re.DOTALL: constants of a standard module
             if isinstance(e, (ast.Tuple,)):
                 return all(simple(x, ok_names) for x in e.elts)
             if isinstance(e, ast.BinOp):
@@ -1233,7 +1236,48 @@ class Canon(object):
             out[name] = st.value
         return out
 
+    KNOWN_GLOBALS = frozenset('''BEL BS CAN CR DEL ENQ ESC FF HT LF NUL PEXPECT_CONTINUATION_PROMPT PEXPECT_PROMPT PY3 SI SO SPACE SUB VT XOFF XON
+                                  __all__ __revision__ __version__ text_type'''.split())
+
+    def _module_constants(self, tree):
+        """N47  a NEW module-level name (not one of the 25 the package binds at module level at the pinned snapshot) bound once to a literal
+        number / string / None and never re-bound: a named constant for what used to be a magic number.  It is read as the literal."""
+        cnt, val = {}, {}
+        for st in tree.body:
+            if isinstance(st, ast.Assign):
+                for t in st.targets:
+                    for x in ast.walk(t):
+                        if isinstance(x, ast.Name):
+                            cnt[x.id] = cnt.get(x.id, 0) + 1
+                            val[x.id] = st if (len(st.targets) == 1 and t is x) else None
+        out = {}
+        for name, st in val.items():
+            if st is None or cnt[name] != 1 or name in self.KNOWN_GLOBALS or not isinstance(st.value, ast.Constant):
+                v = st.value if st is not None else None
+                # chr(29) and the like: a call of a pure builtin on literals
+                if not (st is not None and cnt[name] == 1 and name not in self.KNOWN_GLOBALS and isinstance(v, ast.Call) and isinstance(v.func, ast.Name)
+                        and v.func.id in ('chr', 'ord', 'int', 'float', 'str') and v.args and all(isinstance(a, ast.Constant) for a in v.args) and not v.keywords):
+                    continue
+            if any((isinstance(n, ast.Name) and n.id == name and isinstance(n.ctx, (ast.Store, ast.Del)) and n is not st.targets[0]) or
+                   (isinstance(n, ast.Global) and name in n.names) or
+                   (isinstance(n, ast.arg) and n.arg == name) for n in ast.walk(tree)):
+                continue
+            out[name] = st.value
+        return out
+
     def module(self, tree):
+        mc = self._module_constants(tree)
+        if mc:
+            class _MC(ast.NodeTransformer):
+                def visit_Name(self_, n):
+                    if isinstance(n.ctx, ast.Load) and n.id in mc:
+                        return ast.copy_location(copy.deepcopy(mc[n.id]), n)
+                    return n
+            for fn in [x for x in ast.walk(tree) if isinstance(x, (ast.FunctionDef, ast.AsyncFunctionDef))]:
+                # the body only (a default value `escape_character=_ESC` is part of the signature, which the rules read by name / position)
+                fn.body = [_MC().visit(st) for st in fn.body]
+                fn.args.defaults = [_MC().visit(d) for d in fn.args.defaults]
+            self.hit('N47')
         self.mod_tuples = self._module_tuples(tree)
         if self.mod_tuples:
             mt = self.mod_tuples
@@ -1730,6 +1774,9 @@ class Canon(object):
                 self.hit('N5')
                 continue
             res.append(s)
+        # N6b  `if <call-free test>: pass` (what is left of a branch whose statements were folded away) does nothing
+        res = [s for s in res if not (isinstance(s, ast.If) and not s.orelse and all(isinstance(b, ast.Pass) for b in s.body) and _pure(s.test))] or \
+            ([ast.copy_location(ast.Pass(), res[0])] if res else res)
         # N6
         if len(res) > 1 and any(isinstance(s, ast.Pass) for s in res):
             keep = [s for s in res if not isinstance(s, ast.Pass)]
